@@ -155,8 +155,8 @@ class EstimationMethod:
         if min_branch_length is None:
             self.min_branch_length = DEFAULT_MIN_BRANCH_LENGTH
         else:
-            if not min_branch_length > 0.0:
-                raise ValueError("Minimum branch length must be positive")
+            if not (min_branch_length > 0.0 and np.isfinite(min_branch_length)):
+                raise ValueError("Minimum branch length must be positive and finite")
             self.min_branch_length = min_branch_length
 
         self.allow_unary = False if allow_unary is None else allow_unary
